@@ -6,3 +6,6 @@ from . import vcs  # noqa
 from . import cli  # noqa
 from . import rewrite  # noqa
 from . import parse_version  # noqa
+from . import version_cmp  # noqa
+from . import config_init  # noqa
+from . import diff  # noqa
